@@ -9,6 +9,7 @@ import (
 	"errors"
 	"fmt"
 	"io"
+	"os"
 	"sort"
 	"strings"
 	"sync"
@@ -170,9 +171,9 @@ type DJob struct {
 	Stages     string // stage statuses of the execution graph, if the job has a poll loop registered
 }
 
-func (j *DJob) Started() bool  { return j.Start >= 0 }
-func (j *DJob) Running() bool  { return j.Start >= 0 && !j.Completed && !j.Canceled }
-func (j *DJob) Waiting() bool  { return j.Start < 0 && !j.Canceled }
+func (j *DJob) Started() bool  { return j.Start != nilDur }
+func (j *DJob) Running() bool  { return j.Start != nilDur && !j.Completed && !j.Canceled }
+func (j *DJob) Waiting() bool  { return j.Start == nilDur && !j.Canceled }
 func (j *DJob) Terminal() bool { return j.Completed || j.Canceled }
 
 type Dump struct {
@@ -203,7 +204,7 @@ func (d *Dump) Short() string {
 			st = "X"
 		case j.Completed:
 			st = "C"
-		case j.Start >= 0:
+		case j.Start != nilDur:
 			st = "R"
 		}
 		if j.HasTimer {
@@ -247,7 +248,7 @@ func (w *World) dump() *Dump {
 	d := &Dump{WaitLists: map[string][]int{}, ByPipeline: map[string][]int{}, ShuttingDown: st.IsShuttingDown, Defs: st.Defs}
 	rel := func(t *time.Time) time.Duration {
 		if t == nil {
-			return -1
+			return nilDur
 		}
 		return t.Sub(w.S.Base())
 	}
@@ -424,6 +425,12 @@ func (m *MockRunner) Run(t *task.Task) error {
 	}
 	m.seenTasks = append(m.seenTasks, SeenTask{Name: t.Name, Commands: t.Commands, Env: envm, Allow: t.AllowFailure})
 	w.log(Event{Kind: EvRunEnter, Job: m.job, Inst: m.inst, Task: t.Name})
+	if w.Opts.OutStore != nil {
+		if wr, err := w.Opts.OutStore.Writer(jobUUID(m.job).String(), t.Name, "stdout"); err == nil {
+			fmt.Fprintf(wr, "output of task %s of job %d\n", t.Name, m.job)
+			wr.Close()
+		}
+	}
 
 	t.Start = w.S.Now()
 	m.notify(t)
@@ -537,6 +544,7 @@ type WorldOpts struct {
 	RealStore    store.DataStore
 	OutStore     taskctl.OutputStore
 	DumpOnUnlock bool
+	LogDirPath   string
 }
 
 type World struct {
@@ -546,7 +554,7 @@ type World struct {
 	Log          []Event
 	Mocks        []*MockRunner
 	Store        *recStore
-	pollers []*graphReg // registered poll loops (a slice, not a map: it is touched by managed threads and by the explorer)
+	pollers      []*graphReg // registered poll loops (a slice, not a map: it is touched by managed threads and by the explorer)
 	Ctx          context.Context
 	CancelCtx    context.CancelFunc
 	nDrivers     int
@@ -558,6 +566,7 @@ type World struct {
 	ForcedCancel context.CancelFunc
 	forcedDone   bool
 	initErr      error
+	logsBefore   map[string]string
 	pub          sync.Mutex // real lock: orders the construction of the runner before every driver (race build)
 }
 
@@ -644,6 +653,9 @@ func NewWorld(opts WorldOpts) *World {
 
 func (w *World) Close() {
 	w.S.Abort()
+	if w.Opts.LogDirPath != "" {
+		os.RemoveAll(w.Opts.LogDirPath)
+	}
 	w.CancelCtx()
 	w.ForcedCancel()
 	if curWorld == w {
